@@ -234,7 +234,13 @@ def run_impl(prop, cases, tag):
             outs[i::8] = oc
     for o in outs:
         if isinstance(o, dict) and "harness_error" in o:
-            raise CheckError("harness error inside implementation runner: " + o["harness_error"])
+            # The harness prepares and observes every case with operations that the properties require to succeed (building
+            # curves, refining them, reading their state).  On the pinned (unchanged) tree an exception there is a defect of
+            # the machinery.  When function bodies differ from the pin, a data-level exception (not one about the shape of the
+            # API) is the library failing where it must succeed: the case is reported as a property failure.
+            api_shape = o["harness_error"].split(":")[0] in ("AttributeError", "ImportError", "ModuleNotFoundError", "NameError")
+            if api_shape or not SOURCE_CHANGED:
+                raise CheckError("harness error inside implementation runner: " + o["harness_error"])
     return outs, d
 
 
@@ -343,9 +349,14 @@ def evaluate(prop, mod, cases, tag, tmo=2400):
     if not cases:
         return [], [], []
     outs, rundir = run_impl(prop, cases, tag)
-    corr_bad, prop_bad, errors = run_coq(prop, mod, cases, outs, rundir, tag, tmo)
+    # cases the library could not even be prepared / observed on (see run_impl): failures by themselves, not sent to Coq
+    raised = [i for i, o in enumerate(outs) if isinstance(o, dict) and "harness_error" in o]
+    keep = [i for i in range(len(cases)) if i not in set(raised)]
+    corr_bad, prop_bad, errors = run_coq(prop, mod, [cases[i] for i in keep], [outs[i] for i in keep], rundir, tag, tmo)
     if errors:
         raise CheckError("Coq evaluation of generated cases failed: " + " | ".join(errors)[:2000])
+    corr_bad = sorted([keep[i] for i in corr_bad] + raised)
+    prop_bad = sorted([keep[i] for i in prop_bad] + raised)
     return outs, corr_bad, prop_bad
 
 
@@ -370,6 +381,9 @@ def shrink(prop, mod, case, pred_is_prop=True, rounds=6):
 
 
 # --------------------------------------------------------------------------- main
+
+
+SOURCE_CHANGED = False
 
 
 def changed_functions():
@@ -409,6 +423,9 @@ def main():
 
 def run(prop, mod, tier, seed, replay, evidence_path, t0):
     broken = []          # proof / tie obligations that no longer check (names)
+    global SOURCE_CHANGED
+    source_changed = changed_functions()
+    SOURCE_CHANGED = bool(source_changed)
     # 1. constants from the source
     rc, msg = extract_consts()
     if rc != 0:
@@ -462,7 +479,6 @@ def run(prop, mod, tier, seed, replay, evidence_path, t0):
             return 1
         return 0
 
-    source_changed = changed_functions()
     violations = []      # (kind, replay path)
     known_lines = []
     stats = {}
